@@ -5,7 +5,10 @@ package gbn
 import "time"
 
 // vOpts: timeout configuration case split: 0 adaptive defaults, 1 static 1s,
-// 2 adaptive + keep-alive 5s/3s, 3 static 1s + keep-alive 7s/3s.
+// 2 adaptive + keep-alive 5s/3s, 3 static 1s + keep-alive 7s/3s, 4 the
+// configuration the mailbox layer deploys (resend multiplier 5, update
+// frequency 200, handshake timeout 2 s - above the 1 s resend floor -,
+// keep-alive 5s/3s, boost 50%).
 func vOpts(idx int) ([]TimeoutOptions, bool) {
 	switch idx {
 	case 1:
@@ -14,6 +17,9 @@ func vOpts(idx int) ([]TimeoutOptions, bool) {
 		return []TimeoutOptions{WithKeepalivePing(5*time.Second, 3*time.Second)}, true
 	case 3:
 		return []TimeoutOptions{WithStaticResendTimeout(time.Second), WithKeepalivePing(7*time.Second, 3*time.Second)}, true
+	case 4:
+		return []TimeoutOptions{WithResendMultiplier(5), WithTimeoutUpdateFrequency(200), WithHandshakeTimeout(2 * time.Second),
+			WithKeepalivePing(5*time.Second, 3*time.Second), WithBoostPercent(0.5)}, true
 	}
 	return nil, false
 }
